@@ -347,9 +347,23 @@ pub trait Language: Debug + Clone + Hash + Eq + Ord {
             prv = self.private_slots();
         }
 
+        // slots that `m` does not cover get a fresh name: one per slot, not one per occurrence
+        // (otherwise `f(x, x)` would turn into `f(a, b)`, a different e-node).
+        let mut fresh = SlotMap::new();
+
         let mut c = self.clone();
         for x in c.public_slot_occurrences_mut() {
-            let y = m.get(*x).unwrap_or_else(Slot::fresh);
+            let y = match m.get(*x) {
+                Some(y) => y,
+                None => match fresh.get(*x) {
+                    Some(y) => y,
+                    None => {
+                        let y = Slot::fresh();
+                        fresh.insert(*x, y);
+                        y
+                    }
+                },
+            };
 
             // If y collides with a private slot, we have a problem.
             if CHECKS {
